@@ -462,6 +462,37 @@ func (pe *pathEnum) eventsOfInstr(in ssa.Instruction) []pathItem {
 				if cc := callOf(c); cc.static != nil && isPkgFunc(cc.static, "reflect") && (cc.static.Name() == "New" || cc.static.Name() == "MakeSlice") {
 					src = "alloc"
 				}
+				// the product of a pure reflect helper (a clone, a typed copy): a copy of the Default when the Default is
+				// what it was given, a fresh allocation otherwise
+				if cc := callOf(c); src == "other" && cc.static != nil && P.pureValueHelper(cc.static) {
+					src = "alloc"
+					var fromDefault func(v ssa.Value, depth int) bool
+					fromDefault = func(v ssa.Value, depth int) bool {
+						if depth > 3 {
+							return false
+						}
+						for _, rt := range P.rootsOf(v) {
+							for _, s := range rt.path {
+								if s.field != nil && P.roleName(s.field) == "defaultVal" {
+									return true
+								}
+							}
+						}
+						if c2, ok := cv(v).(*ssa.Call); ok && callOf(c2).static != nil && P.pureValueHelper(callOf(c2).static) {
+							for _, a := range c2.Call.Args {
+								if fromDefault(a, depth+1) {
+									return true
+								}
+							}
+						}
+						return false
+					}
+					for _, a := range c.Call.Args {
+						if fromDefault(a, 0) {
+							src = "default"
+						}
+					}
+				}
 			}
 			out = append(out, pathItem{kind: "DEST", val: src, in: in})
 		}
